@@ -552,12 +552,13 @@ def _method(proj, ci, f, ctx, containers, tested_foreign, findings, stats):
                     report(s.lineno, t.attr, "attribute cached on a parameter's object", unc, "(`%s`, presence-tested with getattr/hasattr)" % unparse(t)[:60])
                 else:
                     stats["covered"].append("%s.%s" % (f.qualname, t.attr))
-            elif isinstance(t.value, ast.Name) and containers.get(t.attr) is not None and _is_class_ref(t.value, sn, ci, proj, allow_self=False):
-                # Cls.X = E from a method: rebinding shared state
+            elif (isinstance(t.value, ast.Name) and _is_class_ref(t.value, sn, ci, proj, allow_self=False)) or _is_dyn_class(t.value, sn):
+                # Cls.X = E / type(self).X = E / self.__class__.X = E from a method: state shared by EVERY instance of the class
                 stats["memo_stores"] += 1
-                d = ctx.deps(v, True)
+                d = ctx.deps(v, True) | {p_ for p_ in _names_in(v) if p_ in ctx.params}
                 if d:
-                    report(s.lineno, t.attr, "class-level attribute", d, "(rebound from a method)")
+                    findings.append(Finding(f, s.lineno, t.attr, "class-level attribute",
+                                            "`%s` (line %d) stores a value computed from %s on the CLASS: every instance, existing or future, sees the value of the last object that executed this line (two models with different parameters alive at once share one)" % (unparse(s)[:60], s.lineno, ", ".join("`%s`" % x for x in sorted(d)))))
 
 
 def _returns(stmts):
@@ -571,6 +572,17 @@ def _self_attrs_in(node, sn):
         if isinstance(n, ast.Call) and isinstance(n.func, ast.Name) and n.func.id in PRESENCE_FUNCS and len(n.args) >= 2:
             if isinstance(n.args[0], ast.Name) and n.args[0].id == sn and isinstance(n.args[1], ast.Constant):
                 yield n.args[1].value
+
+
+def _names_in(node):
+    return {n.id for n in ast.walk(node) if isinstance(n, ast.Name)}
+
+
+def _is_dyn_class(node, sn):
+    """type(self) / self.__class__"""
+    if isinstance(node, ast.Call) and isinstance(node.func, ast.Name) and node.func.id == "type" and len(node.args) == 1 and isinstance(node.args[0], ast.Name) and node.args[0].id == sn:
+        return True
+    return isinstance(node, ast.Attribute) and node.attr == "__class__" and isinstance(node.value, ast.Name) and node.value.id == sn
 
 
 def _is_class_ref(node, sn, ci, proj, allow_self=True):
